@@ -17,7 +17,9 @@
 //   vrm=<validate(rm)> ves=<validate(es)> [PATHS-DIFFER ...] | F=<k>:<valuehex>:<0|1>,.. E=<texthex>:<valid>:<vof>:<filteredhex>,..
 // The part after " | " is the oracle table for the model: every call the library made to validator k
 // (recorded by a wrapper around the real functor) and the answers of cppcms::encoding::valid /
-// validate_or_filter for the input and both outputs.
+// validate_or_filter for the input and both outputs.  (E= is printed for diagnosis only: the model computes the
+// encoding verdicts itself - coq/C04/DefsE.v - so that a defect inside the real encoding validators is a
+// correspondence difference; the model driver ignores E=.)
 // For an encoding that is not ASCII compatible (A=0) the library converts to UTF-8, runs the UTF-8 pipeline with
 // replacement character 0 and converts back; then
 //   U=<texthex>:<stop ok 0|1>:<to_utf stop hex>:<to_utf skip hex>,..   for the input and both outputs
